@@ -1817,6 +1817,7 @@ def family_refusals(ctx, r, exact, n, opaque=False):
         ('kaczmarz len(rhs)', lambda x: S.kaczmarz([A, A], x, [Y.zero()], 2), ok, X),
         ('conjugate_gradient domain != range', lambda x: S.conjugate_gradient(odl.MatrixOperator(np.ones((d + 1, d))), x, other.zero(), 2), ok, X),
         ('conjugate_gradient x not in domain', lambda x: S.conjugate_gradient(sq, x, X.zero(), 2), ok, other),
+        ('conjugate_gradient_normal x not in domain', lambda x: S.conjugate_gradient_normal(A, x, Y.zero(), 2), ok, other),
         ('osmlem len(data)', lambda x: S.osmlem([A, A], x, [Y.one()], 2), ok, X),
         ('osmlem x not in domains', lambda x: S.osmlem([A], x, [Y.one()], 2), ok, other),
         ('doubleprox_dc phi.domain', lambda x: doubleprox_dc(x, Y.zero(), f, fo, g, A, 2, 0.5, 0.5), ok, X),
@@ -1847,7 +1848,7 @@ def family_refusals(ctx, r, exact, n, opaque=False):
     ]
     p = dict(solver='refusals', opkind='matrix{}x{}'.format(m, d), fk='-', gk='-', x0=x0, cseed=r.cseed,
              exact=exact, opaque=opaque)
-    for name, fn, excs, space in r.sample(table, 14):
+    for name, fn, excs, space in r.sample(table, 15):
         start = sl.dy_vec(r, size_of(space), 16, 8)
         x = unflat(space, start)
         rec.iterates = []
